@@ -14,8 +14,12 @@ prop("C12", "exploration",
      "prefix dst[:len(dst)] and the bytes past the result are unchanged; after a REJECTED Open everything except the spare capacity "
      "dst[len(dst):cap(dst)] (which cipher.AEAD allows Open to overwrite even on failure) is unchanged - the live prefix, the "
      "associated data, a ciphertext in an array of its own, the bytes past the capacity. Exhaustive sub-spaces: all 19900 "
-     "(key length, key byte) pairs must change the output; every single-bit flip of tag, body and ad for 16 short shapes (layouts "
-     "rotated over the bit index). Raw deck "
+     "(key length, key byte) pairs must change the output - also when the byte is changed IN PLACE in the caller's key buffer and a "
+     "new instance is made from that same buffer (it must seal like an instance made from a fresh copy of the changed key); every single-bit flip of tag, body and ad for 16 short shapes (layouts "
+     "rotated over the bit index). One tamper in six is LIVE: the forged copy is presented to the "
+     "session's own opener in place of the genuine message and to a reference instance alike, and the session goes on - every later "
+     "message must be accepted or rejected as the specification's instance does (out of step after most rejections, still in step "
+     "when nothing of the forged message entered the history). Raw deck "
      "function: arbitrary chunking of inputs/outputs equals the reference. Non-trivial = crosses a 200-byte block, or key length "
      "!= 16, or multi-message session, or aliased layout; distinct by case hash.",
      ["key lengths 1..199 as the property states (0 and >=200 are rejected / out of contract)",
